@@ -39,9 +39,9 @@ Fixpoint els_in (a : list float) : option (list (PathEl float)) :=
 
 Definition f2z (x : float) : Z := F.to_usize x.
 
-(* ITP fuel: the loop is bounded by nmax < 64 in exact arithmetic; on floats a stalled bracket
-   would exhaust any fuel (reported as a mismatch: the model returns [-1; -1]) *)
-Definition itp_fuel : nat := 200.
+(* ITP fuel: the loop is bounded by nmax <= 1023 in exact arithmetic (and leaves when the bracket
+   collapses on floats); exhaustion is reported as a mismatch (the model returns [-1; -1]) *)
+Definition itp_fuel : nat := 1100.
 
 Definition eval (op : Z) (a : list float) : option (list float) :=
   match op with
@@ -52,6 +52,16 @@ Definition eval (op : Z) (a : list float) : option (list float) :=
           | Some els => Some (match path_perimeter els acc with Some p => [1%float; p] | None => [0%float] end)
           | None => None
           end
+      | _ => None
+      end
+  | 10 =>   (* common::solve_itp driven directly: f x = x*x - c with a counting state; root, loop entries *)
+      match a with
+      | [lo; hi; eps; n0; k1; c] =>
+          Some (match solve_itp_st (fun (n : Z) (x : float) => ((n + 1)%Z, (x * x - c)%float)) itp_fuel 0%Z
+                                   lo hi eps (f2z n0) k1 (lo * lo - c)%float (hi * hi - c)%float with
+                | Some (x, _, it) => [x; z2f it]
+                | None => [(-1)%float; (-1)%float]
+                end)
       | _ => None
       end
   | _ =>
